@@ -109,6 +109,29 @@ func loadTrieReused(enc encode.Encoder, stream []byte, oldVals interface{}) (st 
 				}
 			}
 		}
+		// every second time the object first sees loads that are refused, of the
+		// kinds an interrupted transfer or a foreign file produce; what they return
+		// is C07's business, here only the final load counts: a refused load must
+		// leave nothing behind that the next successful one picks up
+		sel := len(stream) % 4
+		if sel == 1 || sel == 3 {
+			for _, ver := range []string{"0.5.10", "0.5.11"} {
+				old, lerr := legacyStream0510(stream, ver)
+				if lerr != nil || len(old) < 40 {
+					old = withVersion(stream, ver)
+				}
+				try(func() { st.Unmarshal(old[:32+(len(old)-32)*2/3]) })
+				try(func() { st.Unmarshal(old[:len(old)-1]) })
+			}
+			if len(stream) > 33 {
+				try(func() { st.Unmarshal(stream[:32+(len(stream)-32)/2]) })
+			}
+		}
+		if sel == 2 || sel == 3 {
+			try(func() { st.Unmarshal(stream[:min(len(stream), 9)]) })
+			try(func() { st.Unmarshal(withVersion(stream, "0.6.0")) })
+			try(func() { st.Unmarshal(withVersion(stream, "0.5.10")) }) // a current body under an old header: refused or not, it is not what counts
+		}
 		err = st.Unmarshal(stream)
 	})
 	return
